@@ -21,11 +21,15 @@ from fractions import Fraction
 import lib
 import drive_adapters as da
 
-TH_ROUNDTRIP = ['RB.Adapters.c05_parse_render_roundtrip', 'RB.Adapters.c05_collect_ignores_noise',
-                'RB.Adapters.c05_collect_groups']
+TH_ROUNDTRIP = ['RB.Adapters.c05_parse_render_roundtrip_' + a for a in
+                ('rebench', 'validation', 'savina', 'jmh', 'time_formatted', 'plain', 'time_p')] + \
+               ['RB.Adapters.c05_collect_ignores_noise', 'RB.Adapters.c05_collect_groups', 'RB.Adapters.c05_spec_roundtrip']
 TH_CLASSIFY = ['RB.Adapters.c05_classify_render_savina', 'RB.Adapters.c05_classify_render_jmh',
-               'RB.Adapters.c05_classify_render_time_formatted', 'RB.Adapters.c05_classify_render_plain',
-               'RB.Adapters.c05_classify_render_rebench', 'RB.Adapters.c05_classify_render_validation']
+               'RB.Adapters.c05_classify_render_time_formatted', 'RB.Adapters.c05_classify_render_time_rss',
+               'RB.Adapters.c05_classify_render_plain', 'RB.Adapters.c05_classify_render_time_p',
+               'RB.Adapters.c05_rebench_classify_render', 'RB.Adapters.c05_rebench_extra_classify_render',
+               'RB.Adapters.c05_validation_classify_render', 'RB.Adapters.c05_validation_actors_classify_render',
+               'RB.Adapters.c05_numeral_value']
 
 # ------------------------------------------------------------------ grammar
 NAME_CH = 'abcdefghijklmnopqrstuvwxyzABCDEFGHIJKLMNOPQRSTUVWXYZ0123456789_.'
